@@ -196,9 +196,14 @@ Definition step (s : st) (o : op) : st * out :=
               s_tokens := s_tokens s; s_now := s_now s; s_next := S (s_next s) |}, OutDevice (s_next s))
       end
   | ODecide dev user approve =>
-      ({| s_codes := s_codes s; s_issued := s_issued s; s_devices := s_devices s;
-          s_decisions := (dev, (user, approve)) :: s_decisions s; s_tokens := s_tokens s; s_now := s_now s;
-          s_next := s_next s |}, OutNone)
+      (* the end user decides on the page reached with a user code; a device that was never announced has none *)
+      match find_dev (s_devices s) dev with
+      | None => (s, OutNone)
+      | Some _ =>
+          ({| s_codes := s_codes s; s_issued := s_issued s; s_devices := s_devices s;
+              s_decisions := (dev, (user, approve)) :: s_decisions s; s_tokens := s_tokens s; s_now := s_now s;
+              s_next := s_next s |}, OutNone)
+      end
   | OPoll dev c =>
       match dev with
       | None => (s, OutError "invalid_request")
